@@ -42,7 +42,7 @@ RULE = ("1-d structured: model families (HEM, Merton, VG, CGMY in all five activ
         "with a real Product and MLMC path managers; 1-d synthetic: random dyadic axes x piecewise-constant dyadic densities "
         "(zero-mass cells included); 2-d: margins from the families x {Clayton, independent, dependent} x fixed 3/5-point "
         "coarse grids (5x5 / 9x9 fine) x {INVERSION, BINARYSEARCHTREEADAPTED}, every fine increment of every parity; the Lean "
-        "negation witness replayed with TableMeasure margins. non-trivial = coupling built, >= 1 next_level call succeeded, "
+        "negation witness replayed with TableMeasure margins; SDE coupling: 1-d drivers, jump-time mode with maximum step. non-trivial = coupling built, >= 1 next_level call succeeded, "
         "fine grid has >= 5 points per axis; distinct = distinct (model, parameters, grid arguments, method, levels)")
 NOT_PROVED = [
     "additivity / non-negativity of the concrete families' integrate() and of LevyCopulaModel.mass (hypotheses IsMass, IsBoxMass2) "
@@ -53,8 +53,8 @@ NOT_PROVED = [
     "C03-copula-margin-coupling): only corner_probs_sum_one and the independent case are theorems",
     "payoff expectations are not modelled: 'the multilevel sum telescopes' is the corollary of the law equality, which is stated "
     "and proved at the level of jump rates, diffusion coefficient, drift and shared Brownian increments",
-    "the SDE coupling (couplingsde.py) delegates to the two couplings above; its own drift bookkeeping (mc_drift_h/_2h) is only "
-    "oracle-checked through the driver coupling it wraps",
+    "the SDE coupling (couplingsde.py) delegates jumps and diffusion to the two couplings above (checked on its driver coupling "
+    "after real CouplingSDE.next_level calls); its Euler recursion is C16's subject",
     "float rounding of probabilities and sums (compared at 2^-40 relative; oracle 1e-12 * intensity)",
 ]
 ASSUMPTIONS = [
@@ -241,29 +241,40 @@ def oracle_level_1d(ctx, d, cls, cp, g_prev, coarse, standalone_fine, pms, level
                                                   "level_l_chain": sf}, cls=cls)
         return False
     ts = np.array([0.0, 1.0, 0.37])
-    both = np.asarray(pms[-1].deterministic_path(ts), dtype=float)
     want_c = np.asarray(coarse.deterministic_path(ts), dtype=float)
     want_f = np.asarray(standalone_fine.deterministic_path(ts), dtype=float)
+    both = np.asarray(pms[-1].deterministic_path(ts), dtype=float) if pms is not None else np.array([want_f, want_c])
     if both.shape[0] != 2 or not (np.allclose(both[1], want_c, rtol=1e-12, atol=1e-13) and np.allclose(both[0], want_f, rtol=1e-12, atol=1e-13)):
         ctx.fail("oracle", "c03.1d.drift", dl, {"coupled_paths_at_0_1_037": both.tolist(), "level_l_minus_1_chain": want_c.tolist(),
                                               "level_l_chain": want_f.tolist()}, cls=cls)
         return False
     # one Brownian vector for both components
     ps = cp.fine_process._path_simulation
+    wv = [0.5, -1.25, 2.0]
+    sq = np.array([0.5, 0.75, 0.25])
     if hasattr(ps, "_brownian_increments"):
-        wv = [0.5, -1.25, 2.0]
-        sq = np.array([0.5, 0.75, 0.25])
         keep = ps._brownian_increments
         ps._brownian_increments = deque([[list(wv)]])
         try:
             df, dc = sim.simulate_diffusion_with_coupling(sq)
         finally:
             ps._brownian_increments = keep
-        ef, ec = np.cumsum(sq * sf * np.array(wv)), np.cumsum(sq * sc * np.array(wv))
-        if not (np.allclose(np.ravel(df), ef, rtol=1e-12, atol=1e-300) and np.allclose(np.ravel(dc), ec, rtol=1e-12, atol=1e-300)):
-            ctx.fail("oracle", "c03.1d.same_brownian", dl, {"fine": np.ravel(df).tolist(), "coarse": np.ravel(dc).tolist(),
-                                                          "expected_fine": ef.tolist(), "expected_coarse": ec.tolist()}, cls=cls)
-            return False
+    else:
+        # jump-time modes draw the increments inside the call: replay the same generator state
+        st = np.random.get_state()
+        try:
+            np.random.seed(20260929)
+            df, dc = sim.simulate_diffusion_with_coupling(sq)
+            np.random.seed(20260929)
+            wv = list(np.random.normal(size=sq.size))
+        finally:
+            np.random.set_state(st)
+        ctx.branches["c03.1d.same_brownian:jump_time_mode"] += 1
+    ef, ec = np.cumsum(sq * sf * np.array(wv)), np.cumsum(sq * sc * np.array(wv))
+    if not (np.allclose(np.ravel(df), ef, rtol=1e-12, atol=1e-300) and np.allclose(np.ravel(dc), ec, rtol=1e-12, atol=1e-300)):
+        ctx.fail("oracle", "c03.1d.same_brownian", dl, {"fine": np.ravel(df).tolist(), "coarse": np.ravel(dc).tolist(),
+                                                      "expected_fine": ef.tolist(), "expected_coarse": ec.tolist()}, cls=cls)
+        return False
     return True
 
 
@@ -544,6 +555,50 @@ def array_sampler_probe(ctx, name):
         np.random.set_state(st)
 
 
+# ------------------------------------------------------------------------------------------------- SDE coupling (1-d driver)
+def sde_probe(ctx, d, corr=True):
+    """CouplingSDE delegates the jumps and the diffusion to the coupling of its driver (jump-time mode with a maximum step):
+    the same oracle / correspondence on `driver_coupling_process` after real CouplingSDE.next_level calls"""
+    from rpylib.model.levydrivensde.levydrivensde import LevyDrivenSDEModel, Constant
+    from rpylib.process.coupling.couplingsde import CouplingSDE
+    from rpylib.product.payoff import PayoffOnTheFly
+    driver = zoo.make_levy(d["family"], d["params"])
+    model = LevyDrivenSDEModel(driver=driver, x0=1.0, a=Constant(m=1, d=1, constant=0.5))
+    g, _ = zoo.make_grid("fixed", None, d["h"], nb_of_points=d["nb"], dimension=1)
+    method = METHODS_1D[d["method"]]
+    prod = Product(payoff_underlying=Spot(), payoff=PayoffOnTheFly(lambda x: x), maturity=1.0)
+    cls = dict(stream="sde", kind="fixed", family=d["family"], dimension=1)
+
+    class PM:
+        def update(self, _):
+            pass
+    cps = CouplingSDE(model=model, grid=g, method=method)
+    cps.initialisation(prod)
+    cps.pre_computation(2, prod)
+    pms = [PM()]
+    prod_d = the_product()
+    for level in range(1, d["L"] + 1):
+        cp = cps.driver_coupling_process
+        g_prev = copy.deepcopy(cp.grid)
+        coarse = MarkovChainProcess(driver, method, g_prev)
+        coarse.initialisation(prod_d)
+        cps.next_level(2, pms, prod)
+        standalone = MarkovChainProcess(driver, method, copy.deepcopy(cp.grid))
+        standalone.initialisation(prod_d)
+        ctx.count("c03.sde.level", dict(d, level=level), nontrivial=True, branch=f"{d['family']}:L{level}")
+        if not oracle_level_1d(ctx, d, cls, cp, g_prev, coarse, standalone, None, level):
+            return
+        # the drivers' drifts the Euler scheme of the two components uses: level l and level l-1
+        dh, d2h = float(np.ravel(cps.mc_drift_h)[0]), float(np.ravel(cps.mc_drift_2h)[0])
+        wh, w2h = float(np.ravel(standalone.process_drift())[0]), float(np.ravel(coarse.process_drift())[0])
+        if not (math.isclose(dh, wh, rel_tol=1e-12, abs_tol=1e-300) and math.isclose(d2h, w2h, rel_tol=1e-12, abs_tol=1e-300)):
+            ctx.fail("oracle", "c03.sde.drift", dict(d, level=level), {"mc_drift_h": dh, "level_l_chain": wh, "mc_drift_2h": d2h,
+                                                                      "level_l_minus_1_chain": w2h}, cls=cls)
+            return
+        if corr and not corr_level_1d(ctx, d, cls, cp, g_prev, coarse, "[]", level):
+            return
+
+
 # ------------------------------------------------------------------------------------------------- n-d (copula coupling)
 class MassRecorder:
     """wraps model.mass for the duration of one __coupling_state call: the first call is total_mass, the others the corners"""
@@ -650,21 +705,25 @@ def nd_level(ctx, d, cls, cm, cp, g_prev, coarse, standalone, pms, level, corr):
             p = [x / total for x in pm]
             probs[cs] = p
             # the loop must return for every uniform of [0, 1): the largest one is sent to the last corner of positive mass
-            cp._uniform = ScriptedUniform([1.0 - 2.0 ** -30])
+            # (up to the float rounding of the masses, which the check above bounds by ORACLE_REL * lambda / total_mass)
+            u_top = 1.0 - 2.0 ** -30 - 2 * ORACLE_REL * lam / total
+            cp._uniform = ScriptedUniform([u_top])
             try:
-                v = [float(x) for x in cstate(inc)]
+                if u_top > 0.5:
+                    v = [float(x) for x in cstate(inc)]
             except ValueError as e:
-                ctx.fail("oracle", "c03.nd.corner_probs_sum_one", dl, {"increment": inc, "u": 1.0 - 2.0 ** -30, "exception": repr(e)[:200],
+                ctx.fail("oracle", "c03.nd.corner_probs_sum_one", dl, {"increment": inc, "u": u_top, "exception": repr(e)[:200],
                                                                       "corner_masses": pm, "total_mass": total}, cls=cls)
                 return False
             if not corr:
                 # search mode: the probabilities are read off the behaviour of __coupling_state as a function of u
                 # (bisection on the uniform), not off the masses it asked for
                 outcomes, edges, lo_u = [], [], 0.0
-                while lo_u < 1.0 - 2.0 ** -30:
+                top = max(u_top, 0.5)
+                while lo_u < top:
                     cp._uniform = ScriptedUniform([lo_u + 2.0 ** -40])
                     here = [float(x) for x in cstate(inc)]
-                    a_, b_ = lo_u, 1.0 - 2.0 ** -30
+                    a_, b_ = lo_u, top
                     cp._uniform = ScriptedUniform([b_])
                     if [float(x) for x in cstate(inc)] == here:
                         outcomes.append(here); edges.append(1.0); break
@@ -949,7 +1008,7 @@ def run_nd(ctx, corr=True):
                   h=0.1, nb=5, L=1, method="BINARYSEARCHTREEADAPTED") for c in zoo.COPULAS]
     for d in fixed:
         copula_probe(ctx, d, corr=corr)
-    for _ in range(ctx.n(14, 300)):
+    for _ in range(ctx.n(22, 300)):
         copula_probe(ctx, copula_case(rng, ctx.thorough), corr=corr)
 
 
@@ -963,12 +1022,17 @@ def replay_nd(ctx, d):
 # ------------------------------------------------------------------------------------------------------------ entry points
 def run(ctx, corr=True):
     rng = ctx.rng
-    run_1d(ctx, nmodels=ctx.n(14, 150), corr=corr)
-    for _ in range(ctx.n(25, 600)):
+    run_1d(ctx, nmodels=ctx.n(22, 150), corr=corr)
+    for _ in range(ctx.n(40, 600)):
         synthetic_probe(ctx, synthetic_case(rng), corr=corr)
     if corr:
         for name in list(ARRAY_SAMPLERS) + list(METHODS_1D):
             array_sampler_probe(ctx, name)
+    for _ in range(ctx.n(4, 40)):
+        fam = rng.choice(zoo.FAMILIES)
+        d = dict(stream="sde", family=fam, params=zoo.draw_params(rng, fam) if rng.random() < 0.7 else {}, h=rng.choice([0.2, 0.1]),
+                 nb=rng.choice([5, 9]), L=rng.randint(1, 2), method=rng.choice(list(METHODS_1D)))
+        guarded(ctx, d, dict(stream="sde", dimension=1), sde_probe, ctx, d, corr=corr)
     run_nd(ctx, corr=corr)
     ctx.notes.append(f"largest oracle residual / lambda: 1-d {MAXDEV['1d']:.2e}, 2-d independent {MAXDEV['2d']:.2e}, "
                      f"|sum of corner masses - total| / lambda {MAXDEV['corner']:.2e} (threshold {ORACLE_REL})")
@@ -994,6 +1058,8 @@ def replay(ctx, rec):
         guarded(ctx, d, cls, coupling1d_probe, ctx, d, cls, model, g, d["method"], d["L"])
     elif s == "array_sampler":
         array_sampler_probe(ctx, d["method"])
+    elif s == "sde":
+        sde_probe(ctx, d)
     elif s in ("copula", "cex"):
         replay_nd(ctx, d)
     else:
